@@ -35,6 +35,18 @@ fresh run: own event log = trace of its own operations (tie, flag 0), records pe
 window and rows of ITS OWN samples, bit-identical to the object alone, and the records / the catalog header
 carry weights / redshifts iff this object was given them.  An operation that raises in company but not
 alone is a failure (c16-raises:*:other-generators-alive).
+
+The ambient state of the process (props/c16_ambient.py, checker c16_ambient_case, interpreters c16_ambient_driver.py):
+log levels / handlers / basicConfig / yaw.utils.get_logger / logging.disable on the yaw logger, its children and the root,
+progress indicators, warnings filters, the environment variables the library reads (discovered, not listed), the worker
+count taken from the environment, global PRNG state, numpy error state / print options, replaced stdio, working
+directory, a trace function, interpreter switches (-O, -X dev, -W, variables set before import) - several settings per
+case, each applied and restored around four routes (chunks of a RandomReader, Catalog.from_random, direct calls /
+generate_dataframe, get_probe) with generators constructed inside / before the setting or shared by all settings.  The
+model (Randoms.v Observers): the ambient state decides which OBSERVERS run inside a pass; a pass is independent of an
+observer iff the observer hands back the state of the re-seed (C16_observer_free_iff, C16_pass_ambient_free).  Oracle:
+the reference stream of the seed computed with numpy alone; every route under every setting is compared with it and
+with the neutral setting inside Coq (size, window, rows, same records, calls after the last reseed = sizes of the route).
 """
 import math
 import os
@@ -61,6 +73,12 @@ TRUSTED = [
     "several generators: the reference of an object is the same class with the same arguments driven through its own "
     "operations while no other generator is constructed or used (one process: state that outlives every object of an "
     "earlier case is not reset between cases)",
+    "ambient state: the reference stream is numpy alone - default_rng(SeedSequence(seed).spawn(1)[0]), per call "
+    "uniform(ra limits), uniform(sin dec limits) -> arcsin, integers(0, m) -> both attribute columns - with the call sizes "
+    "of the route; that this IS what the seed stands for is the tie (flag 0 / 4 of c16_ambient_case under the neutral "
+    "setting); the Ambient context manager of the harness applies and restores the settings (logging tree, warnings "
+    "filters, os.environ, stdio, descriptors, trace function); the simulated pool (harness/sim/pool.py) stands for "
+    "multiprocessing when the worker count comes from the environment",
     "the index twin of the attribute-table cases: the real generator with the same seed, window, call sizes and data "
     "size m over the finite float64 table row j = (j, j) is taken to show the index vector of each call "
     "(numpy Generator.integers depends on the seed, the earlier draws, the bound m and the size only)",
@@ -88,11 +106,23 @@ ASSUMPTIONS = [
     "window, patch_num = 1); an exception raised both in company and alone is reported as c16-raises as in the single "
     "cases; with patch_num the union of the patches is compared, otherwise every patch bit for bit; a column that the "
     "catalog header claims and the records lack (or the reverse) counts as a column in the wrong state",
+    "ambient state: the neutral setting is the state the harness itself runs in (yaw logger at CRITICAL, YAW_NUM_THREADS=1, "
+    "default warnings filters, no progress, max_workers=1); an exception that the SETTING asks for is a refusal, counted "
+    "(refused:*), not a failure: a Warning raised under the filter 'error', a FloatingPointError under np.seterr(all='raise'), "
+    "a ValueError / KeyError / TypeError for a value that is no positive integer in a variable the library reads; with "
+    "workers from the environment or patch_num the records of a catalog are compared as a multiset, otherwise in order; "
+    "observers are seen through reseed() / __call__ of the generator object only: an observer that saves and restores "
+    "the PRNG state by other means is harmless by C16_pass_ambient_free and passes (records equal), one that draws from "
+    "a copy is invisible and harmless; interpreter switches are tried in own processes on the reader and the catalog route",
     "in the row comparison of the property NaN is one value (sign and payload ignored) and -0.0 = 0.0; bit patterns "
     "are compared only in the tie with the model (flag 0, ctx.disagree); which rows are drawn, and that rows holding "
     "non-finite entries are drawn at all, is part of the tie, not of the property",
 ]
-RULE = ("several generators = (attribute set, table, window, seed of every object; the schedule of constructions and "
+RULE = ("ambient cases = (window, seed, table, n, cs, patch mode, call sizes, where the generator is constructed; one "
+        "ambient setting = values of the dimensions logging / progress / warnings / env / workers / global-rng / numpy-state / "
+        "stdio / cwd / trace / interpreter); distinct by (case, setting); non-trivial when the setting is not the neutral one "
+        "and n > 1; "
+        "several generators = (attribute set, table, window, seed of every object; the schedule of constructions and "
         "operations); non-trivial when the objects do not all have the same attribute set; "
         "cases = (window, n, cs, seed, attribute mode and table size, patch mode, history of earlier generator use); "
         "distinct by that tuple; non-trivial when the history is non-empty (the generator was used before the observed "
